@@ -546,7 +546,7 @@ let run_v args =
     let k = match kind with "e" -> IEnum | "s" -> IStruct | _ -> IUnion in
     let rs = if reprs = "-" then [] else List.map (fun r -> if r = "u32" then RU32 else ROther) (String.split_on_char ',' reprs) in
     let parse_variant (v : string) : variant =
-      let f = v.[0] = '1' and d = v.[1] = '1' in
+      let f = v.[0] = '1' and d = v.[1] <> '0' in   (* 1..5: the forms an explicit discriminant can take *)
       let rest = String.sub v 2 (String.length v - 2) in
       let attrs = List.filter (fun a -> a <> "") (String.split_on_char ';' rest) in
       { v_fields = f; v_discr = d; v_attrs = List.map (fun a -> match a.[0] with
